@@ -2604,6 +2604,12 @@ class TextQueryBackend(Backend):
                     for alias in aliases
                     for alias_rule_reference, field in alias.mapping.items()
                     if alias_rule_reference == rule_reference
+                    # the same rule may be referred to by name in one place and by id in the other
+                    or (
+                        hasattr(alias_rule_reference, "rule")
+                        and hasattr(rule_reference, "rule")
+                        and alias_rule_reference.rule is rule_reference.rule
+                    )
                 )
             )
 
